@@ -179,7 +179,7 @@ def is_std_internal(chk):
 def run_harness(h, logdir, playback=False):
     """Run one harness under ulimit -v and timeout; returns a result dict."""
     os.makedirs(logdir, exist_ok=True)
-    log = os.path.join(logdir, "%s.%s.log" % (h.crate, h.name))
+    log = os.path.join(logdir, "%s.%s%s.log" % (h.crate, h.name, "".join("-" + f for f in h.features)))
     cmd = ["cargo", "kani", "--target-dir", target_dir(h.crate, h.features), "--harness", "proofs::" + h.name, "--exact"]
     if h.features:
         cmd += ["--features", ",".join(h.features)]
@@ -404,7 +404,7 @@ def playback_test(h, r, prop):
 
 def write_replay(prop, h, r, pb):
     os.makedirs(os.path.join(REPLAYS, prop), exist_ok=True)
-    p = os.path.join(REPLAYS, prop, "%s.%s.json" % (h.crate, h.name))
+    p = os.path.join(REPLAYS, prop, "%s.%s%s.json" % (h.crate, h.name, "".join("-" + f for f in h.features)))
     doc = {"property": prop, "harness": h.name, "crate": h.crate, "what": h.what, "bounds": h.bounds,
            "failed_checks": r["failed_checks"], "unwind_failures": r.get("unwind_failures", []),
            "reason": r.get("reason", ""), "rerun": "cd %s && RUSTFLAGS='--cfg %s' CARGO_NET_OFFLINE=true %s" % (crate_dir(h.crate), GUARD, r["cmd"]),
@@ -488,7 +488,7 @@ def run_property(prop, spec, tier, jobs=None):
         sat_clauses += r.get("sat_clauses", 0) or 0
         solver_s += r.get("solver_s", 0) or 0
         kani_s += r.get("verif_time_s", 0) or 0
-        samp = {"harness": "%s::%s" % (h.crate, h.name), "decides": h.what, "bounds": h.bounds, "outcome": r["outcome"],
+        samp = {"harness": "%s::%s%s" % (h.crate, h.name, "".join(" [feature %s]" % f for f in h.features)), "decides": h.what, "bounds": h.bounds, "outcome": r["outcome"],
                 "checks": r["n_checks"], "covers_satisfied": len(r["covers_sat"]), "wall_s": r["wall_s"],
                 "kani_time_s": r.get("verif_time_s"), "sat_vars": r.get("sat_vars"), "sat_clauses": r.get("sat_clauses"),
                 "solver_s": r.get("solver_s"), "symex_steps": r.get("symex_steps"), "vccs": r.get("vccs")}
